@@ -59,6 +59,12 @@ func (e *Engine) verifyFunc(f *ssa.Function, ct *Contract) *FnVC {
 	}
 	for _, b := range f.FreeVars {
 		v := fv.unknown(st, b.Type(), "fv_"+sanitize(b.Name()))
+		if v.K == KLoc {
+			// a captured variable is bound by reference to an existing cell
+			if _, isPtr := types.Unalias(b.Type()).Underlying().(*types.Pointer); isPtr {
+				fv.assume("true", not(eq(v.T, "LNil")))
+			}
+		}
 		in.vals[b] = v
 		in.free = append(in.free, v)
 	}
